@@ -1236,11 +1236,6 @@ def translate(repo):
         effects.append({'name': 'assign_connectivity', 'writer': False, 'pre': [],
                         'writes': [('elements', None)], 'clears': [], 'clears_slots': [],
                         'where': f'{rel}:{setter.lineno}'})
-    # coordinates assigned through the FEMAttribute setter (fem_data.nodes.data = v): the attribute
-    # has no way to reach the FEMData caches (no owner hook is recognised for nodes)
-    effects.append({'name': 'assign_nodes', 'writer': False, 'pre': [],
-                    'writes': [('nodes', None)], 'clears': [], 'clears_slots': [],
-                    'where': 'femio/fem_attribute.py data setter'})
     for names, W in writers:
         key = '@' + W.name
         for nm in names:
